@@ -65,10 +65,29 @@ def cases(ctx):
                'listinput': bool(rng.random() < 0.2)}
 
 
-def write_file(path, cols):
-    with open(path, 'w') as f:
-        for row in zip(*cols):
-            f.write(' '.join(repr(float(x)) for x in row) + '\n')
+FILE_STYLES = ['plain', 'plain', 'right_aligned', 'tabs', 'header', 'blank_lines', 'crlf', 'no_final_newline', 'leading_tab']
+
+
+def write_file(path, cols, style='plain'):
+    """text-file variants that np.loadtxt reads alike (every number round-trips exactly): repr, right-aligned fixed width (lines start
+    with blanks, as np.savetxt(fmt='%25.17e') or Fortran write them), tab separated, '#' header block, blank lines, CRLF, no final newline"""
+    nl = '\r\n' if style == 'crlf' else '\n'
+    lines = []
+    if style == 'header':
+        lines += ['# k omega', '#   generated for a test', '#']
+    for n_, row in enumerate(zip(*cols)):
+        if style == 'right_aligned':
+            lines.append(''.join('%26.17e' % float(x) for x in row))
+        elif style == 'tabs':
+            lines.append('\t'.join(repr(float(x)) for x in row))
+        elif style == 'leading_tab':
+            lines.append('\t' + ' '.join(repr(float(x)) for x in row))
+        else:
+            lines.append(' '.join(repr(float(x)) for x in row))
+        if style == 'blank_lines' and n_ % 7 == 3:
+            lines.append('')
+    with open(path, 'w', newline='') as f:
+        f.write(nl.join(lines) + ('' if style == 'no_final_newline' else nl))
 
 
 def run_repo_data(ctx, case):
@@ -189,7 +208,9 @@ def run_case(ctx, case):
         om = pyPRISM.omega.FromArray(arg, k=(None if kk is None else (kk.tolist() if case['listinput'] else kk)))
     else:
         path = os.path.join(_S['dir'], 'w%d_%d.dat' % (os.getpid(), case['seed']))
-        write_file(path, [kk, data] if src == 'file2' else [data])
+        fstyle = FILE_STYLES[case['seed'] % len(FILE_STYLES)]
+        ctx.count('file_style', fstyle)
+        write_file(path, [kk, data] if src == 'file2' else [data], fstyle)
         om = pyPRISM.omega.FromFile(path)
     # ---- aliasing probe: the caller keeps using (and changing) its arrays
     if src in ('array', 'array_k') and not case['listinput']:
